@@ -92,11 +92,31 @@ def s_scenarios():
     return out
 
 
+def cfg_open():
+    """Start state: the POP3 session is already in TRANSACTION state (its snapshot taken)."""
+    c = dict(cfg(3))
+    c["name"] = "c20-3-open"
+    c["prelude"] = list(c["prelude"]) + [{"s": "P", "op": "pop_open"}]
+    return c
+
+
+def alphabet_marks(tier):
+    """Narrow and deep: the DELE / RSET / QUIT bookkeeping, with one IMAP removal in between."""
+    P, A = "P", "A"
+    return [
+        {"s": P, "op": "pop_dele", "n": 1}, {"s": P, "op": "pop_dele", "n": 2}, {"s": P, "op": "pop_dele", "n": 3},
+        {"s": P, "op": "pop_rset"}, {"s": P, "op": "pop_quit"}, {"s": P, "op": "pop_drop"}, {"s": P, "op": "pop_stat"},
+        {"s": P, "op": "pop_list"}, {"s": P, "op": "pop_retr", "n": 2}, {"s": A, "op": "del", "set": "1"},
+    ]
+
+
 def run(tier, seed, jobs):
     from .hcommon import run_h
 
     res = run_h(PROP, RULES, [{"cfg_ref": ("vf.props.c20", "cfg", [3]), "alphabet": alphabet(tier), "depth": 4 if tier == "quick" else 6,
-                                "label": "INBOX(3) dotted bodies"}],
+                                "label": "INBOX(3) dotted bodies"},
+                               {"cfg_ref": ("vf.props.c20", "cfg_open", []), "alphabet": alphabet_marks(tier), "depth": 4 if tier == "quick" else 6,
+                                "label": "POP3 session open; DELE/RSET/QUIT bookkeeping (narrow, deep)"}],
                  ("C20", "C05"), jobs, seed,
                  ["one POP3 session and one IMAP session on INBOX(3); bodies with dot lines, a lone dot, no final newline",
                   "'octets RETR delivers' = un-stuffed payload between the status line and the terminating '.CRLF' line",
